@@ -302,6 +302,7 @@ def run_render_bounded(ctx):
     console = importlib.import_module("uberjob.progress._console_progress_observer")
     html = importlib.import_module("uberjob.progress._html_progress_observer")
     n, bad, n_ipy = 0, [], [0]
+    per_kind = {}
     scope_sets = [[("a",)], [("a",), ("b", 1)], [(OpaqueVal(1),), (OpaqueVal(2),)], [(1,), ("x",), (None,)], [("eu", 1), ("eu", None)], [("fn.mod.name", 1j), ("fn.mod.name", 2j)]]
     try:
         ipy = importlib.import_module("uberjob.progress._ipython_progress_observer")
@@ -326,7 +327,7 @@ def run_render_bounded(ctx):
                             state[sec][s] = simple.ScopeState(completed=c, failed=f, running=r, total=t, weighted_elapsed=1.5 * r)
                     ets = [(scs[0], (type(exc), exc, exc.__traceback__))] * nexc
                     for mk in (lambda: console.ConsoleProgressObserver(initial_update_delay=0, min_update_interval=0, max_update_interval=0),
-                               lambda: html.HtmlProgressObserver(initial_update_delay=0, min_update_interval=0, max_update_interval=0)
+                               lambda: html.HtmlProgressObserver(lambda data: None, initial_update_delay=0, min_update_interval=0, max_update_interval=0)
                                if hasattr(html, "HtmlProgressObserver") else None,
                                lambda: ipy.IPythonProgressObserver(initial_update_delay=0, min_update_interval=0, max_update_interval=0) if ipy else None):
                         try:
@@ -336,6 +337,7 @@ def run_render_bounded(ctx):
                         if o is None:
                             continue
                         n += 1
+                        per_kind[type(o).__name__] = per_kind.get(type(o).__name__, 0) + 1
                         try:
                             if type(o).__name__ == "IPythonProgressObserver":
                                 n_ipy[0] += 1
@@ -351,7 +353,96 @@ def run_render_bounded(ctx):
                                 bad.append((type(o).__name__, repr(e), [s for s in scs]))
     ctx.check("bounded/every-enumerated-state-renders-without-raising", bool(not bad), info=f"{n} renders; {bad}")
     ctx.check("bounded/nontrivial-number-of-states", bool(n > 200), info=str(n))
+    ctx.check("bounded/console-AND-html-renderers-were-both-exercised", bool(per_kind.get("ConsoleProgressObserver", 0) > 50 and per_kind.get("HtmlProgressObserver", 0) > 50), info=str(per_kind))
     ctx.check("bounded/the-IPython-display-was-rendered-too(ipywidgets-importable)", bool(n_ipy[0] > 50), info=str(n_ipy[0]))
+    return "ok"
+
+
+class CInt(SInt):
+    """a symbolic count as the renderers use it: arithmetic, comparison, truth value, formatting and DIVISION (the HTML display computes
+    percentages: ``100 * completed / total``) - a division is defined only for a non-zero divisor (obligation)"""
+
+    def _wrap(self, r):
+        return CInt(r.ctx, r.t) if isinstance(r, SInt) and not isinstance(r, CInt) else r
+
+    def __add__(self, o):
+        return self._wrap(SInt.__add__(self, o))
+
+    def __radd__(self, o):
+        return self._wrap(SInt.__radd__(self, o))
+
+    def __mul__(self, o):
+        return self._wrap(SInt.__mul__(self, o))
+
+    def __rmul__(self, o):
+        return self._wrap(SInt.__rmul__(self, o))
+
+    def __truediv__(self, o):
+        t = o.t if isinstance(o, SInt) else (z3.IntVal(o) if isinstance(o, int) else None)
+        if t is None:
+            return NotImplemented
+        self.ctx.check("defined:percentage-division-by-a-non-zero-total", t != 0, props=["C20"], info="ZeroDivisionError in the renderer")
+        return Ratio(self, o)
+
+    def __hash__(self):
+        return id(self)
+
+
+class Ratio:
+    def __init__(self, a, b):
+        self.a, self.b = a, b
+
+    def __format__(self, spec):
+        return f"<{self.a!r}/{self.b!r}>"
+
+    __str__ = __repr__ = lambda self: format(self, "")
+
+
+@unit("progress.render[symbolic-counts]", props=["C20"],
+      functions=[("progress/_console_progress_observer.py", "ConsoleProgressObserver._render"), ("progress/_console_progress_observer.py", "_print_section"),
+                 ("progress/_console_progress_observer.py", "_ralign"), ("progress/_html_progress_observer.py", "HtmlProgressObserver._render"),
+                 ("progress/_html_progress_observer.py", "_render_scope"), ("progress/_html_progress_observer.py", "_get_html_progress_string"),
+                 ("progress/_html_progress_observer.py", "_get_total_scope_state"), (SP, "_get_progress_string"), (SP, "ScopeState.to_progress_string")],
+      assumptions=["the real console / HTML renderers are executed natively on ScopeState objects whose counts are symbolic integers (every value); the number of sections / scopes is "
+                   "concrete (1 or 2 sections, 1 or 2 scopes: the loops over them run natively - parametric in the scopes)",
+                   "state invariant from progress.State and C15: every announced scope has total >= 1 and completed + failed + running <= total, all >= 0",
+                   "str() of a scope value, traceback.format_exception, datetime formatting do not raise; elapsed times are finite floats"],
+      min_obligations=8)
+def render_symbolic_unit(ctx):
+    simple, comp, po = _mods()
+    import importlib
+
+    console = importlib.import_module("uberjob.progress._console_progress_observer")
+    html = importlib.import_module("uberjob.progress._html_progress_observer")
+    which = ctx.choose(2, "renderer")
+    shape = ctx.choose(3, "state-shape")   # run: 2 scopes | stale: 1 scope + run: 1 scope | run: 1 scope
+    layout = [{"run": [("a",), ("b", 2)]}, {"stale": [("fn",)], "run": [("fn", "x.y")]}, {"run": [()]}][shape]
+    state = {}
+    for sec, scopes in layout.items():
+        state[sec] = {}
+        for sc in scopes:
+            vals = {}
+            for f in ("completed", "failed", "running", "total"):
+                vals[f] = ctx.fresh(IntS, f"{f}_{sec}_{len(state[sec])}")
+                ctx.assume(vals[f] >= 0)
+            ctx.assume(vals["total"] >= 1)
+            ctx.assume(vals["completed"] + vals["failed"] + vals["running"] <= vals["total"])
+            state[sec][sc] = simple.ScopeState(**{f: CInt(ctx, t) for f, t in vals.items()}, weighted_elapsed=1.5)
+    try:
+        raise ValueError("boom")
+    except ValueError as e:
+        ets = [(("a",), (type(e), e, e.__traceback__))] if ctx.choose(2, "exceptions") == 1 else []
+    if which == 0:
+        o = console.ConsoleProgressObserver(initial_update_delay=0, min_update_interval=0, max_update_interval=0)
+    else:
+        o = html.HtmlProgressObserver(lambda data: None, initial_update_delay=0, min_update_interval=0, max_update_interval=0)
+    kind, val = _catch(ctx, lambda: o._render(state, 0, ets, 12.0))
+    ctx.check("render:raises-nothing-for-any-counts(total>=1,completed+failed+running<=total)", bool(kind == "ret"), info=repr(val))
+    ctx.check("render:returns-the-text-to-display", bool(kind == "ret" and isinstance(val, (str, bytes)) and len(val) > 0))
+    if kind == "ret" and which == 0:
+        # the console display skips a finished section after having shown it once: the second rendering of an all-done state still raises nothing
+        kind2, val2 = _catch(ctx, lambda: o._render(state, len(ets), ets, 13.0))
+        ctx.check("render:a-second-rendering-of-the-same-state-raises-nothing(console-skips-finished-sections)", bool(kind2 == "ret"), info=repr(val2))
     return "ok"
 
 
